@@ -75,7 +75,8 @@ def build_pred(d):
 def code_names(container, two_d, k, rng):
     """the names get_sorted_array_names will see"""
     if container == "pl":
-        nm = rng.sample(NAME_POOL, k)
+        pool = NAME_POOL + ["m%02d" % i for i in range(max(0, k - len(NAME_POOL)))]   # k > 8 happens with large nmax
+        nm = rng.sample(pool, k)
         if k >= 2 and nm == sorted(nm):
             nm[0], nm[-1] = nm[-1], nm[0]          # never alphabetical
         return nm
